@@ -16,18 +16,24 @@ LEAN_MODULE = 'Proofs.C11'
 THEOREMS = ['Fsic.C11.' + n for n in [
     'copy_fresh', 'copy_observationally_equal', 'copy_same_class', 'disjoint_frame', 'disjoint_frame_ops',
     'copy_independent', 'siblings_disjoint', 'instance_class_disjoint', 'sibling_history_invisible',
-    'class_invisible_to_instance_history', 'ops_local', 'trace_t_local']]
+    'class_invisible_to_instance_history', 'ops_local', 'trace_t_local', 'interleaved_disjoint',
+    'interleaved_independent', 'interleaved_independent_ops', 'copy_resync_independent',
+    'assignFrom_inplace_copies_values']]
 RULE = ('programs over real fsic objects: a class (VectorContainer; parser-built / hand-written / default-inheriting '
         'BaseModel subclasses; BaseLinker subclasses with two nested submodels; with and without AliasMixin / '
         'TracerMixin, TRACE_VARIABLES None or a class-level list), two sibling instances over range / list spans, a '
         'random history of mutating operations (element writes, rebinding, add_variable, add_attribute, strict / lags, '
         'appends and pops on names/check/endogenous/index/_attributes/span/preferred_names/user lists, aliases dict, '
-        'trace_t, class-level list mutations, the same through submodels) with copies by all three routes at random '
+        'trace_t, class-level list mutations, the same through submodels, and RE-SYNCHRONISATION: a whole variable '
+        'assigned from ANOTHER object of the class (copy / sibling / submodel) as attribute, string key, replace_values, '
+        '`values`, view, astype, list, tolist) with copies by all three routes at random '
         'points. T: sharing graph (paths grouped by object identity, views of one buffer = one object) and list '
         'contents of real objects == model, after every copy and at the end. S: twin runs — every mutable object '
         'reachable from one side is mutated generically (list append, dict insert, array element write, attribute '
         'rebinding) plus API-level mutations (values, add_variable, add_attribute, lags, solve, trace), each followed by '
-        'a comparison of the full observable state of the other side; pairs = (original, copy) for each route, '
+        'a comparison of the full observable state of the other side; the same again AFTER re-synchronising the two sides '
+        '(every variable assigned as a whole from the other side, either direction, 9 spellings; then element / '
+        'period / slice assignment, solve, solve_t, generic array writes); pairs = (original, copy) for each route, '
         '(instance, sibling), (instance, class), both directions. distinct = distinct (class spec, program); '
         'non-trivial = program with at least one copy and one structural mutation')
 TRUSTED = ['CPython object identity (id) and NumPy buffer ownership (ndarray.base) as the notion of "same object"',
@@ -44,7 +50,7 @@ ASSUMPTIONS = ['constructor arguments (span list, submodels dict) are owned by t
                'heap is acyclic (copyRoot returns none otherwise)']
 
 META = {
-    "text": "Theorems over a reference/heap model of the constructors and of copy()/copy.copy/copy.deepcopy (one function): a copy shares no mutable object with its original and leaves the old heap untouched (copy_fresh), is bisimilar to it and of the same class (copy_observationally_equal, copy_same_class); for roots with disjoint mutable reach every history of in-place mutations through one leaves every observation, the reach and the sharing graph of the other unchanged (disjoint_frame, by induction over the history; copy_independent in both directions). Two sibling instances, and an instance and its class, share no mutable object (siblings_disjoint, instance_class_disjoint: the constructors store copies of the class-level lists), so any history through one is invisible through the other; trace_t is a local step for every source of the trace names (trace_t_local, ops_local). The model is tied to the code by comparing the sharing graph of real objects after random histories and all three copy routes.",
+    "text": "Theorems over a reference/heap model of the constructors and of copy()/copy.copy/copy.deepcopy (one function): a copy shares no mutable object with its original and leaves the old heap untouched (copy_fresh), is bisimilar to it and of the same class (copy_observationally_equal, copy_same_class); for roots with disjoint mutable reach every history of in-place mutations through one leaves every observation, the reach and the sharing graph of the other unchanged (disjoint_frame, by induction over the history; copy_independent in both directions); disjointness is an invariant of every INTERLEAVED history of the two sides including whole-variable assignment from the other side, which stores element values, never the passed array (interleaved_disjoint, interleaved_independent_ops, copy_resync_independent). Two sibling instances, and an instance and its class, share no mutable object (siblings_disjoint, instance_class_disjoint: the constructors store copies of the class-level lists), so any history through one is invisible through the other; trace_t is a local step for every source of the trace names (trace_t_local, ops_local). The model is tied to the code by comparing the sharing graph of real objects after random histories and all three copy routes.",
     "design_ref": "DESIGN.md §5 M7, §6 C11, §7 row 7",
     "note": "Trusted: Lean kernel; standard axioms; the harness' extraction of the sharing graph from real objects (id(), ndarray.base); the model of copy.deepcopy's memo. Theorem hypotheses (no dangling references, class-level lists hold only immutable entries, __dict__ keys unique and containing the constructor's keys) are evaluated by the driver on every correspondence program. Fixed findings (b2c7af0, cba9d09): instance endogenous/check were the class-level lists; Trace.names was the class-level TRACE_VARIABLES list — the oracle keys remain, a regression is a violation.",
     "technique": "Lean 4 proof (heap invariants, induction on deepcopy fuel and on histories, bisimulation) + differential correspondence check on sharing graphs + twin-run oracle"
@@ -145,7 +151,7 @@ def gen_case(rng):
         prog.append({'c': 'new', 'r': r, 'cls': cname, 'span': sp})
         spec = classes[cname]
         sh[r] = {'cls': cname, 'kind': spec['kind'], 'vars': list(base_names) if spec['kind'] == 'model' else [],
-                 'lists': [['names']] if spec['kind'] != 'container' and not spec.get('tracer') else [],
+                 'lists': [],
                  'traced': {}, 'span_list': 'list' in sp,
                  'attrs': 0}
         s = sh[r]
@@ -169,7 +175,7 @@ def gen_case(rng):
         prog.append({'c': 'dict', 'r': 'd', 'entries': [['A', 'a'], ['B', 'b']]})
         prog.append({'c': 'new', 'r': 'l', 'cls': 'L', 'span': {'range': n}, 'sub': 'd'})
         lnames = ['T', 'W'] if classes['L']['style'] == 'explicit' else []
-        sh['l'] = {'cls': 'L', 'kind': 'linker', 'vars': lnames, 'lists': [['names'], ['_attributes'],
+        sh['l'] = {'cls': 'L', 'kind': 'linker', 'vars': lnames, 'lists': [['_attributes'],
                    ['check'], ['endogenous']] + ([['preferred_names']] if classes['L']['alias'] else []),
                    'traced': {}, 'span_list': False, 'attrs': 0, 'subs': {'A': 'a', 'B': 'b'}}
         roots.append('l')
@@ -193,7 +199,26 @@ def gen_case(rng):
             choices += ['inSub', 'inSub', 'inSub']
         if depth > 0:
             choices = [c for c in choices if c != 'popLast']
+        # re-synchronisation: a whole variable assigned from ANOTHER object of the same class (copy, sibling, submodel)
+        others = [q for q in roots if q != r and sh[q]['cls'] == s['cls'] and sh[q]['vars']]
+        if s['vars'] and others:
+            choices += ['assignFrom'] * 4
+            if depth == 0:
+                choices += ['assignValues']
         o = rng.choice(choices)
+        if o == 'assignFrom':
+            q = rng.choice(others)
+            via = rng.choice(sorted(hc.ASSIGN_INPLACE.keys() - {'values'}))
+            return {'o': 'assignFrom', 'x': rng.choice(s['vars']), 'from': q, 'fx': rng.choice(sh[q]['vars']),
+                    'via': via, 'inplace': hc.ASSIGN_INPLACE[via]}
+        if o == 'assignValues':
+            same = [q for q in others if len(sh[q]['vars']) == len(s['vars'])]
+            if not same:
+                return {'o': 'setCell', 'x': rng.choice(s['vars']), 'i': rng.randrange(n), 'v': rng.randrange(1, 9)}
+            q = rng.choice(same)
+            pre = []   # `values` runs over `index` (containers) / `names` (models, linkers): the variables only
+            return {'o': 'assignValues', 'from': q,
+                    'pairs': [[a_, b_] for a_, b_ in zip(pre + s['vars'], pre + sh[q]['vars'])]}
         if o == 'setCell':
             return {'o': 'setCell', 'x': rng.choice(s['vars']), 'i': rng.randrange(n), 'v': rng.randrange(1, 9)}
         if o == 'rebind':
@@ -277,7 +302,12 @@ def gen_case(rng):
             if op['o'] == 'popLastSafe':
                 op = {'o': 'popLast', 'f': op['f']}
                 prog.append({'c': 'op', 'r': r, 'op': {'o': 'append', 'f': op['f'], 's': fresh_name('e')}})
-            prog.append({'c': 'op', 'r': r, 'op': op})
+            cmd = {'c': 'op', 'r': r, 'op': op}
+            if op['o'] == 'assignValues':   # one real call (`m.values = other.values`), one model op per variable
+                cmd['expand'] = [{'c': 'op', 'r': r, 'op': {'o': 'assignFrom', 'x': a_, 'from': op['from'], 'fx': b_,
+                                                             'via': 'values', 'inplace': True}}
+                                 for a_, b_ in op['pairs']]
+            prog.append(cmd)
     prog.append({'c': 'snap', 'roots': all_roots()})
     return {'classes': classes, 'prog': prog, 'roots': roots, 'ncopies': ncopies}
 
@@ -383,6 +413,11 @@ def mutators(x, tag_prefix=''):
             out.append((v, 'api:replace_values', lambda: x.replace_values(**{v: 9.0})))
             if len(x.span):
                 out.append((v, 'api:setitem-label', lambda: x.__setitem__((v, x.span[0]), -1.0)))
+
+            def iadd():
+                arr = getattr(x, v)
+                arr[:2] += 1.5
+            out.append((v, 'api:iadd-slice', iadd))
         out.append(('add_variable', 'api:add_variable', lambda: x.add_variable('ZZnew', 1.0)))
         out.append(('add_attribute', 'api:add_attribute', lambda: x.add_attribute('ZZattr', ['q'])))
         out.append(('strict', 'api:strict', lambda: setattr(x, 'strict', not x.strict)))
@@ -400,6 +435,15 @@ def mutators(x, tag_prefix=''):
                     except Exception:   # noqa: BLE001   (the property is about sharing, not about solvability)
                         pass
             out.append(('solve', 'api:solve', solve))
+
+            def solve_t():
+                with warnings.catch_warnings():
+                    warnings.simplefilter('ignore')
+                    try:
+                        x.solve_t(len(x.span) - 1, max_iter=3, failures='ignore', errors='ignore')
+                    except Exception:   # noqa: BLE001
+                        pass
+            out.append(('solve_t', 'api:solve_t', solve_t))
         if isinstance(x, TracerMixin) and len(x.span):
             def trace():
                 try:
@@ -476,6 +520,80 @@ def twin(rep, relation, mutated_name, mutated, observed_name, observed, case, re
     return n
 
 
+RESYNC_FORMS = ['attr', 'item', 'replace_values', 'values', 'view', 'astype', 'list', 'tolist-item', 'scalar']
+AFTER_RESYNC = ('api:setitem-label', 'api:iadd-slice', 'api:solve', 'api:solve_t', 'api:status', 'api:iterations',
+                'api:setattr-scalar', 'api:setitem')
+
+
+def resync(dst, src, form):
+    """Re-synchronise dst from src: every variable both have (non-object dtype) is assigned as a whole from the
+    OTHER object's variable, in the given spelling; submodels of linkers pairwise.  Returns the number of variables."""
+    k = 0
+    if form == 'values':
+        dst.values = src.values
+        k = 1
+    else:
+        for v in list(dst.__dict__['index']):
+            a, b = dst.__dict__.get('_' + v), src.__dict__.get('_' + v)
+            if isinstance(a, np.ndarray) and isinstance(b, np.ndarray) and a.dtype != object and b.dtype != object \
+                    and a.shape == b.shape:
+                hc.assign_from(dst, src, v, v, form)
+                k += 1
+    if isinstance(dst, BaseLinker) and isinstance(src, BaseLinker):
+        for key in dst.submodels:
+            if key in src.submodels:
+                k += resync(dst.submodels[key], src.submodels[key], form)
+    return k
+
+
+def twin_resync(rep, relation, mutated_name, observed_name, case, rebuild, forms):
+    """The same twin run after a re-synchronisation: one side's variables are first assigned as a whole from the
+    other side's (either direction, each spelling), THEN the mutated side is changed in place (element / period /
+    slice assignment, solve) and the other side observed."""
+    n = 0
+    for form in forms:
+        for direction in ('mutated<-observed', 'observed<-mutated'):
+            m, o = rebuild()
+            try:
+                with warnings.catch_warnings():
+                    warnings.simplefilter('ignore')
+                    k = resync(m, o, form) if direction == 'mutated<-observed' else resync(o, m, form)
+            except Exception:   # noqa: BLE001  (e.g. shapes differ after add_variable on one side)
+                continue
+            if not k:
+                continue
+            rep.dist['oracle:resync:' + form] += 1
+            muts = [t for t in mutators(m) if t[1].endswith(':write') or t[1].split(':', 1)[-1] in
+                    [a.split(':', 1)[-1] for a in AFTER_RESYNC] and t[1].startswith(('api:', 'sub['))]
+            before = hc.observe(o)
+            for comp, what, fn in muts:
+                try:
+                    fn()
+                except Exception:   # noqa: BLE001
+                    continue
+                after = hc.observe(o)
+                n += 1
+                if before != after:
+                    fields = sorted({top_field(p) for p in hc.diff_paths(before, after)})
+                    violate(rep, f'{relation}-shares-after-resync:{form}',
+                            f'{relation}: after re-synchronising ({direction}, spelling {form}) mutating {mutated_name} '
+                            f'({what}) changed what is observed through {observed_name}: {fields}',
+                            dict(case, pair=[relation, mutated_name, observed_name], mutation=what,
+                                 resync=[form, direction]))
+                    before = after
+    return n
+
+
+def forms_for(case, forms):
+    if forms == 'all':
+        return list(RESYNC_FORMS)
+    if forms is not None:
+        return list(forms)
+    import hashlib, random
+    r = random.Random(hashlib.blake2b(json.dumps(case['prog'], sort_keys=True).encode(), digest_size=8).digest())
+    return r.sample(RESYNC_FORMS[:3], 1) + r.sample(RESYNC_FORMS[3:], 1)
+
+
 def diagnose_raise(rep, case, prep, exc):
     """A generated program is valid by construction.  If it raises on the real code: when the failing command is the
     construction of a *second* instance of a class (or the program ran before and fails when simply run again), the
@@ -501,10 +619,10 @@ def diagnose_raise(rep, case, prep, exc):
     return False
 
 
-def oracle(rep, case, prep=None):
+def oracle(rep, case, prep=None, forms=None):
     """Twin runs for one generated case: copies by each route, siblings, instance vs class."""
     try:
-        return oracle_(rep, case, prep)
+        return oracle_(rep, case, prep, forms)
     except Exception as e:   # noqa: BLE001
         # the same program ran once already: failing on a plain re-run means state survived outside the objects
         rep.violate('state-survives-outside-instances', f'a program that ran once raises {type(e).__name__} when run '
@@ -512,8 +630,11 @@ def oracle(rep, case, prep=None):
         return 0
 
 
-def oracle_(rep, case, prep=None):
+def oracle_(rep, case, prep=None, forms=None):
     evaluations = 0
+    forms = forms_for(case, forms)
+    import zlib
+    resync_route = sorted(hc.COPY_ROUTES)[zlib.crc32(json.dumps(case['prog'], sort_keys=True).encode()) % 3]
     roots = [r for r in case['roots'] if not r.startswith('c')]
     src_candidates = [r for r in roots if r in ('a', 'l')] or roots[:1]
     prep = prep or Prepared(case)
@@ -541,6 +662,10 @@ def oracle_(rep, case, prep=None):
             evaluations += twin(rep, 'copy', f'{src}', orig, f'{route}({src})', cp, case, rebuild)
             evaluations += twin(rep, 'copy', f'{route}({src})', cp, src, orig, case,
                                 lambda src=src, route=route: rebuild(src, route, True))
+            if route == resync_route:   # one route per case (the route rotates over the cases)
+                evaluations += twin_resync(rep, 'copy', f'{src}', f'{route}({src})', case, rebuild, forms)
+                evaluations += twin_resync(rep, 'copy', f'{route}({src})', src, case,
+                                           lambda src=src, route=route: rebuild(src, route, True), forms)
             rep.dist['oracle:copy-pairs'] += 1
     # siblings and class
     if 'a' in case['roots'] and 'b' in case['roots']:
@@ -550,6 +675,7 @@ def oracle_(rep, case, prep=None):
         a, b = sib()
         evaluations += twin(rep, 'sibling', 'a', a, 'b', b, case, sib)
         evaluations += twin(rep, 'sibling', 'b', b, 'a', a, case, lambda: sib(True))
+        evaluations += twin_resync(rep, 'sibling', 'a', 'b', case, sib, forms)
         cname = 'M' if 'M' in case['classes'] else 'V'
 
         def inst_cls(flip=False):
@@ -567,6 +693,7 @@ def oracle_(rep, case, prep=None):
         l1, l2 = lk()
         evaluations += twin(rep, 'sibling', 'l', l1, 'l2', l2, case, lk)
         evaluations += twin(rep, 'sibling', 'l2', l2, 'l', l1, case, lambda: lk(True))
+        evaluations += twin_resync(rep, 'sibling', 'l', 'l2', case, lk, forms)
     return evaluations
 
 
@@ -622,7 +749,7 @@ def first_difference(model, real, cross=False):
 
 def run(ctx, rep):
     n_prog = (400 if ctx.tier == 'quick' else 5000) * ctx.scale
-    n_oracle = (120 if ctx.tier == 'quick' else 2500) * ctx.scale
+    n_oracle = (90 if ctx.tier == 'quick' else 1500) * ctx.scale
     rng = ctx.sub_rng('programs')
     batch = []
     for i in range(n_prog):
@@ -649,6 +776,11 @@ def run(ctx, rep):
                     rep.dist['route:' + cmd['route']] += 1
                 if cmd['c'] == 'op':
                     rep.dist['op:' + cmd['op']['o']] += 1
+                    inner = cmd['op']['op'] if cmd['op']['o'] == 'inSub' else cmd['op']
+                    if inner['o'] == 'assignFrom':
+                        rep.dist['assign-from-other:' + inner['via']] += 1
+                    if inner['o'] == 'assignValues':
+                        rep.dist['assign-from-other:values'] += 1
             structural = any(c['c'] == 'op' and c['op']['o'] != 'setCell' for c in case['prog'])
             rep.case(json.dumps(case, sort_keys=True), nontrivial=case['ncopies'] > 0 and structural,
                      sample={'classes': case['classes'], 'prog': case['prog'][:6], 'real': real[:160]}
@@ -671,7 +803,7 @@ def run_fixed(ctx, rep, case, batch):
                          f'{type(e).__name__}: {e}')
         return
     batch.append((case, full, real))
-    rep.evaluations += oracle(rep, case, prep)
+    rep.evaluations += oracle(rep, case, prep, forms='all')
 
 
 def fixed_scenarios(ctx, rep):
@@ -755,11 +887,12 @@ def replay(ctx, rep, case):
         tmp = framework.Report()
         CAP[0] = 10 ** 9
         try:
-            oracle(tmp, case, prep)
+            oracle(tmp, case, prep, forms='all')
         finally:
             CAP[0] = 6
         for v in tmp.violations:
-            same = (v['case'].get('pair') == case.get('pair') and v['case'].get('mutation') == case.get('mutation'))
+            same = (v['case'].get('pair') == case.get('pair') and v['case'].get('mutation') == case.get('mutation')
+                    and v['case'].get('resync') == case.get('resync'))
             if same or 'pair' not in case:
                 rep.violate(v['key'], v['what'], v['case'])
         print('  impl :', real[:300])
